@@ -41,6 +41,8 @@ pub const OPS: &[OpSpec] = &[
     OpSpec { name: "p6", nslots: 6, kids: &[], payload: false },
     // leaf whose payload is an interned Symbol (process-global interner), used by C20 only
     OpSpec { name: "sym", nslots: 0, kids: &[], payload: true },
+    // ternary node of LS
+    OpSpec { name: "t", nslots: 0, kids: &[0, 0, 0], payload: false },
 ];
 
 pub fn op_index(name: &str) -> Option<u8> {
